@@ -172,6 +172,13 @@ SetSubFrom(h, g) == LET o == H[h].o s == M[H[g].o].sub IN
   /\ s # 0 /\ H[g].o # o /\ o \notin Reach({s}) /\ M[o].sub # s
   /\ Step("setsubfrom", h, g, 0, ~FrzM(h, o), SetFld(o, "sub", s), L, P, H)
 
+\* h.sub = g.sub  (g.sub UNSET, g may be h): reading an unset message field gives an empty message of its own, so the
+\* field of h becomes a new empty message that nothing else holds
+SetSubUnset(h, g) == LET o == H[h].o IN
+  /\ M[H[g].o].sub = 0
+  /\ Step("setsubunset", h, g, 0, ~FrzM(h, o),
+          Append(SetFld(o, "sub", Len(M) + 1), EmptyMsg), L, P, H)
+
 \* assignment of the element sequence es to the repeated field f of the message of h:
 \* the elements are stored into the field's list (a new list if the field has none,
 \* or - ideal - if the current list is frozen content shared with another message)
@@ -355,7 +362,7 @@ Next ==
        \/ \E op \in SnapRoutes : Snap(h, op)
        \/ \E f \in {"i", "sub", "r", "rm", "mp", "mm"} : Clr(h, f)
        \/ \E g \in MsgHandles :
-            \/ SetRFrom(h, g) \/ SetMpFrom(h, g)
+            \/ SetRFrom(h, g) \/ SetMpFrom(h, g) \/ SetSubUnset(h, g)
             \/ (g # h /\ (SetSub(h, g) \/ SetSubFrom(h, g) \/ SetRm(h, g) \/ SetMm(h, g)))
             \/ SetRmFrom(h, g)
             \/ (Rich /\ g # h /\ (RmApp(h, g) \/ RmSet(h, g)))
